@@ -43,7 +43,7 @@ def regroup(draw, items):
         if shape <= 1 and len(chunk) == 1:
             args.append(chunk[0])
         elif shape == 2 and len(chunk) >= 2:
-            args.append([chunk[0], list(chunk[1:])])
+            args.append([chunk[0], list(chunk[1:])] if draw(st.booleans()) else [chunk[0], [[chunk[1]], list(chunk[1:][1:]) or [chunk[1]]]] if len(chunk) >= 3 else [[[chunk[0]], [[chunk[1]]]]])      # nesting two to four levels deep
         else:
             args.append(list(chunk))
     return args
@@ -286,6 +286,7 @@ pred_value = st.one_of(
     st.tuples(st.just('text'), st.sampled_from(['', 'abc', '12']).map(lambda t: {'$': 'sub', 'v': ['str', t]})),
     st.tuples(st.just('logical'), st.booleans()),
     st.tuples(st.just('blank'), st.none()),
+    st.tuples(st.just('other'), st.sampled_from([{'$': 'dt', 'v': '2020-01-01T00:00:00'}, {'$': 'dt', 'v': '1999-12-31T23:59:59'}, [1, 2], [[1, 2], [3, 4]], ['a'], {'$': 'tup', 'v': [1, 2]}])),      # a date, an array: none of the five classes
     st.tuples(st.just('error'), st.sampled_from(CODES8).map(err)),
 ).map(list)
 
@@ -316,6 +317,8 @@ def check_predicates(case):
         raise Violation(d + '%s -> %r' % (f, r['error'] or g), r['error'] or enc(g), 'eight logicals')
     res = dict(zip(names, g))
     for c, p in CLASS_PRED.items():
+        if cls == 'other':
+            continue        # which class a date or an array falls in is not stated; the derived relations below are
         if res[p] != (c == cls):
             raise Violation(d + '%s = %r' % (p, res[p]), res[p], c == cls)
     if res['ISNONTEXT'] != (not res['ISTEXT']):
@@ -358,7 +361,7 @@ LAWS = [
         rule='IF(cond, a, b); IFS with 1-5 (condition, value) pairs; SWITCH(target, 1-4 (case, result) pairs [, default]) with targets/cases of one kind and a default that may equal the target; '
              'an error in the tested position (IF condition, an IFS condition at or before the first true one, the SWITCH target) yields that error; an error value sitting in a branch/value/result slot is the outcome exactly when that slot is the selected one'),
     Law('predicates', check_predicates, strategy=st.fixed_dictionaries({'v': pred_value, 'how': st.sampled_from(['var', 'lit', 'cell'])}), quick=4000, thorough=150000, shards=(4, 16),
-        classes=lambda c: (c['v'][0], 'how:' + c['how']), required=('number', 'text', 'logical', 'blank', 'error', 'how:cell', 'how:lit'),
+        classes=lambda c: (c['v'][0], 'how:' + c['how']), required=('number', 'text', 'logical', 'blank', 'error', 'other', 'how:cell', 'how:lit'),
         nontrivial=lambda c: c['how'] != 'lit' or c['v'][0] in ('error', 'blank'),
         rule='a value of each class (number, text incl. "", "12", "TRUE"; logical; blank; each of the 8 error codes) as variable, literal/expression or listener-served cell: '
              'ISNUMBER/ISTEXT/ISLOGICAL/ISBLANK/ISERROR true exactly on their class (hence mutually exclusive), ISNONTEXT = not ISTEXT, ISERROR = ISERR or ISNA, ISNA only on #N/A'),
